@@ -54,6 +54,7 @@ var (
 	IDs      = []string{"x", "y", "", "id-1", "a&b<c", "éß", "0"}
 	// the session's own full, bare and domain address, near-misses of them, other senders
 	Froms = []string{"", "a@example.net/r", OwnBare, OwnFull, "@@", "A@EXAMPLE.net/r", "example.net", "b@example.org",
+		"romeo@@example.org/orchard", "@example.org", "example.org/",
 		"example.net/res", "me@example.net/other", "ME@example.net", "xme@example.net", "net"}
 	Payloads = []string{
 		"",
@@ -320,6 +321,9 @@ func GenWrite(kind, id string) []STok {
 	return nil
 }
 
+// Vias are the ways of writing (Op.Via).
+var Vias = []string{"", "copy", "encode", "encode-wt", "element"}
+
 // ReadKinds are consumption patterns.
 var ReadKinds = []string{"none", "one", "some", "all", "all-strict", "beyond", "beyond-swallow", "skip", "skip-then-more"}
 
@@ -379,6 +383,11 @@ func RandProg(r *hx.Rand, id string, partialWrites bool) []Op {
 		w = []Op{W(toks...)}
 		if r.Chance(1, 8) {
 			w = append(w, W(GenWrite(pick(r, WriteKinds), id)...))
+		}
+		if r.Chance(1, 2) { // through another method of the encoder
+			for i := range w {
+				w[i].Via = pick(r, Vias[1:])
+			}
 		}
 	}
 	switch r.Intn(3) {
